@@ -98,6 +98,241 @@ theorem procReaddir_page (s s' : St) (c : Ctx) (args : Bytes) (a : Option Rfc.Fa
                   simp only [List.map_nil]
                   exact (List.drop_eq_nil_of_le (by omega)).symm
 
+/-! ### the entries themselves: name, fileid and cookie of every entry of a page -/
+
+/-- the entries a listing `names` of directory `dir` is sent as, numbered from cookie `i` -/
+def expectedEnts (dir : Bytes) : Nat → List Bytes → List Rfc.DirEnt
+  | _, [] => []
+  | i, x :: xs => { fileid := fnv64 (joinName dir x), name := x, cookie := i + 1 } :: expectedEnts dir (i + 1) xs
+
+theorem expectedEnts_take (dir : Bytes) (i k : Nat) (l : List Bytes) :
+    (expectedEnts dir i l).take k = expectedEnts dir i (l.take k) := by
+  induction l generalizing i k with
+  | nil => simp [expectedEnts]
+  | cons x xs ih =>
+    cases k with
+    | zero => simp [expectedEnts]
+    | succ k => simp [expectedEnts, ih]
+
+/-- nodes that sit directly below `dir` under listable names and carry their path's fileid are numbered as expected -/
+theorem numbered_eq_expected (dir : Bytes) (i : Nat) (nodes : List Node)
+    (h : ∀ nd ∈ nodes, nd.attrs.fileId = fnv64 nd.path ∧ ∃ x, listable dir x = true ∧ nd.path = joinName dir x) :
+    numbered i nodes = expectedEnts dir i (nodes.map fun nd => baseName nd.path) := by
+  induction nodes generalizing i with
+  | nil => rfl
+  | cons nd nds ih =>
+    obtain ⟨hf, x, hl, hp⟩ := h nd (List.mem_cons_self ..)
+    have hns : NoSep x := by
+      unfold listable at hl
+      simp only [Bool.and_eq_true, Bool.not_eq_true', decide_eq_false_iff_not, not_or] at hl
+      refine ⟨hl.1.2.2.1, ?_, hl.1.1, hl.1.2.1⟩
+      intro h47; exact hl.1.2.2.2.1 (by simpa using h47)
+    have hb : baseName nd.path = x := by rw [hp]; exact baseName_joinName dir x hns
+    simp only [numbered, List.map_cons, expectedEnts]
+    rw [ih (i + 1) (fun n hn => h n (List.mem_cons_of_mem _ hn)), hf, hb, hp]
+
+/-- one READDIR page, completely: an NFS3_OK reply from cookie `ck` consists of the entries of the backend's listing
+    from position `ck` on — name, fileid = fnv64 of the entry's path, cookies ck+1, ck+2, … — and with eof of all of them -/
+theorem procReaddir_page_entries (s s' : St) (c : Ctx) (args : Bytes) (a : Option Rfc.Fattr) (verf : Bytes)
+    (ents : List Rfc.DirEnt) (eof : Bool) (hI : CInv s) (hS : DcSup s) (hd : Nat) (ck : Nat) (r1 r2 : Bytes) (n : Node)
+    (hfh : decFh' s args = some (hd, r1)) (hck : decU64 r1 = some (ck, r2)) (hn : nodeOf s hd = some n)
+    (h : procReaddir s c args = (s', .res ⟨0, .readdirOk a verf ents eof⟩)) :
+    ∃ k, ents = expectedEnts n.path ck (((listing s.fs n.path).drop ck).take k) ∧
+      (eof = true → ents = expectedEnts n.path ck ((listing s.fs n.path).drop ck)) := by
+  unfold procReaddir at h
+  rw [hfh] at h
+  simp only [hck] at h
+  split at h
+  · simp [res] at h
+  · split at h
+    · simp [res] at h
+    · simp only [hn] at h
+      split at h
+      · simp [res] at h
+      · split at h
+        · simp [res] at h
+        · rename_i s1 nodes hrd
+          split at h
+          · simp [res] at h
+          · rename_i s2 at' hg
+            try simp only at h
+            split at h
+            · simp [res] at h
+            · rename_i ents' lim hfill
+              simp only [res, Prod.mk.injEq, Outcome.res.injEq, Rfc.Res.mk.injEq, Rfc.Body.readdirOk.injEq, true_and] at h
+              obtain ⟨_, _, _, hents, hlim⟩ := h
+              have hcl := nodeOf_cleanI hI hn
+              have hrd2 : (readDir s c.now n).2 = .ok nodes := by rw [hrd]
+              have hlist := readDir_is_backend s c.now n nodes hI hS hcl hrd2
+              have hfid := (readDir_cinv s c.now n hI hcl).2 nodes hrd2
+              have hpaths := readDir_paths s c.now n nodes hrd2
+              have hnodes : ∀ nd ∈ nodes, nd.attrs.fileId = fnv64 nd.path ∧ ∃ x, listable n.path x = true ∧ nd.path = joinName n.path x := by
+                intro nd hnd
+                obtain ⟨x, _, hl, hp⟩ := hpaths nd hnd
+                exact ⟨(hfid nd hnd).2, x, hl, hp⟩
+              have hnames : nodes.map (fun n' => baseName n'.path) = listing s.fs n.path := by
+                have hmm : nodes.map (fun n' => baseName n'.path) = (nodes.map (·.path)).map baseName := by
+                  simp [List.map_map, Function.comp_def]
+                rw [hmm, hlist, List.map_map]
+                have hid : ∀ x ∈ ((Fs.sortByName (Fs.children s.fs (fsPath n.path))).map (·.1)).filter (listable n.path),
+                    (baseName ∘ joinName n.path) x = x := by
+                  intro x hx
+                  have hl := (List.mem_filter.mp hx).2
+                  have hns : NoSep x := by
+                    unfold listable at hl
+                    simp only [Bool.and_eq_true, Bool.not_eq_true', decide_eq_false_iff_not, not_or] at hl
+                    refine ⟨hl.1.2.2.1, ?_, hl.1.1, hl.1.2.1⟩
+                    intro h47; exact hl.1.2.2.2.1 (by simpa using h47)
+                  exact baseName_joinName n.path x hns
+                rw [List.map_congr_left hid]
+                simp [listing]
+              generalize hL : (if _ < dirListHeader + dirListTrailer then minReaddirReply else _) = limit at hfill
+              have hlim0 : dirListHeader + dirListTrailer ≤ limit := by
+                rw [← hL]; split
+                · decide
+                · omega
+              by_cases hc : ck ≤ nodes.length
+              · have hps := page_spec limit ck nodes hc hlim0
+                unfold page at hps
+                rw [hfill] at hps
+                obtain ⟨k, hk1, hents', _, hall, _⟩ := hps
+                have hsub : ∀ nd ∈ (nodes.drop ck).take k, nd.attrs.fileId = fnv64 nd.path ∧ ∃ x, listable n.path x = true ∧ nd.path = joinName n.path x :=
+                  fun nd hnd => hnodes nd (List.mem_of_mem_drop (List.mem_of_mem_take hnd))
+                have hform : ents' = expectedEnts n.path ck (((listing s.fs n.path).drop ck).take k) := by
+                  rw [hents', numbered_eq_expected n.path ck _ hsub, List.map_take, List.map_drop, hnames]
+                refine ⟨k, by rw [← hents]; exact hform, ?_⟩
+                intro heof
+                have hlimF : lim = false := by cases lim <;> simp_all
+                have hk2 := hall hlimF
+                rw [← hents, hform, hk2]
+                have : ((listing s.fs n.path).drop ck).length = (nodes.drop ck).length := by
+                  rw [← hnames]; simp
+                rw [← this, List.take_length]
+              · have hpe := page_past_end limit ck nodes (by omega)
+                unfold page at hpe
+                rw [hfill] at hpe
+                simp only [Fill.done.injEq] at hpe
+                have hlen : (listing s.fs n.path).length = nodes.length := by rw [← hnames]; simp
+                have hnil : (listing s.fs n.path).drop ck = [] := List.drop_eq_nil_of_le (by omega)
+                refine ⟨0, ?_, ?_⟩
+                · rw [← hents, hpe.1]; simp [expectedEnts]
+                · intro _
+                  rw [← hents, hpe.1, hnil]; simp [expectedEnts]
+
+/-- the same for READDIRPLUS (name, fileid and cookie of every entry; the attributes and handles of the entries are
+    the subject of Props.C04 / C05) -/
+theorem procReaddirplus_page_entries (s s' : St) (c : Ctx) (args : Bytes) (a : Option Rfc.Fattr) (verf : Bytes)
+    (ents : List Rfc.DirEntPlus) (eof : Bool) (hI : CInv s) (hS : DcSup s) (hd : Nat) (ck : Nat) (r1 r2 : Bytes) (n : Node)
+    (hfh : decFh' s args = some (hd, r1)) (hck : decU64 r1 = some (ck, r2)) (hn : nodeOf s hd = some n)
+    (h : procReaddirplus s c args = (s', .res ⟨0, .readdirplusOk a verf ents eof⟩)) :
+    ∃ k, ents.map stripPlus = expectedEnts n.path ck (((listing s.fs n.path).drop ck).take k) ∧
+      (eof = true → ents.map stripPlus = expectedEnts n.path ck ((listing s.fs n.path).drop ck)) := by
+  unfold procReaddirplus at h
+  rw [hfh] at h
+  simp only [hck] at h
+  split at h
+  · simp [res] at h
+  · split at h
+    · simp [res] at h
+    · split at h
+      · simp [res] at h
+      · simp only [hn] at h
+        split at h
+        · simp [res] at h
+        · split at h
+          · simp [res] at h
+          · rename_i s1 nodes0 hrd
+            split at h
+            · simp [res] at h
+            · rename_i s3 at' hg
+              split at h
+              · simp [res] at h
+              · rename_i s4 ents' lim hfill
+                simp only [res, Prod.mk.injEq, Outcome.res.injEq, Rfc.Res.mk.injEq, Rfc.Body.readdirplusOk.injEq, true_and] at h
+                obtain ⟨_, _, _, hents, hlim⟩ := h
+                have hcl := nodeOf_cleanI hI hn
+                have hrd2 : (readDir s c.now n).2 = .ok nodes0 := by rw [hrd]
+                have hlist := readDir_is_backend s c.now n nodes0 hI hS hcl hrd2
+                have hfid := (readDir_cinv s c.now n hI hcl).2 nodes0 hrd2
+                have hpaths := readDir_paths s c.now n nodes0 hrd2
+                have hspec := refreshEach_spec s1 c.now nodes0
+                -- the refreshed nodes keep paths and fileids
+                have hnodes : ∀ nd ∈ (refreshEach s1 c.now nodes0).2,
+                    nd.attrs.fileId = fnv64 nd.path ∧ ∃ x, listable n.path x = true ∧ nd.path = joinName n.path x := by
+                  have key : ∀ (l1 l2 : List Node), l1.map (·.path) = l2.map (·.path) → l1.map (·.attrs.fileId) = l2.map (·.attrs.fileId) →
+                      (∀ nd ∈ l2, nd.attrs.fileId = fnv64 nd.path ∧ ∃ x, listable n.path x = true ∧ nd.path = joinName n.path x) →
+                      ∀ nd ∈ l1, nd.attrs.fileId = fnv64 nd.path ∧ ∃ x, listable n.path x = true ∧ nd.path = joinName n.path x := by
+                    intro l1
+                    induction l1 with
+                    | nil => intro _ _ _ _ nd hnd; simp at hnd
+                    | cons y ys ih =>
+                      intro l2 hp hf hall nd hnd
+                      cases l2 with
+                      | nil => simp at hp
+                      | cons z zs =>
+                        simp only [List.map_cons, List.cons.injEq] at hp hf
+                        rcases List.mem_cons.mp hnd with e | e
+                        · obtain ⟨hz, x, hl, hpz⟩ := hall z (List.mem_cons_self ..)
+                          rw [e, hp.1, hf.1]
+                          exact ⟨hz, x, hl, hpz⟩
+                        · exact ih zs hp.2 hf.2 (fun w hw => hall w (List.mem_cons_of_mem _ hw)) nd e
+                  refine key _ nodes0 hspec.1 hspec.2 ?_
+                  intro nd hnd
+                  obtain ⟨x, _, hl, hp⟩ := hpaths nd hnd
+                  exact ⟨(hfid nd hnd).2, x, hl, hp⟩
+                have hnames : (refreshEach s1 c.now nodes0).2.map (fun n' => baseName n'.path) = listing s.fs n.path := by
+                  have hmm : (refreshEach s1 c.now nodes0).2.map (fun n' => baseName n'.path) =
+                      ((refreshEach s1 c.now nodes0).2.map (·.path)).map baseName := by
+                    simp [List.map_map, Function.comp_def]
+                  rw [hmm, hspec.1, hlist, List.map_map]
+                  have hid : ∀ x ∈ ((Fs.sortByName (Fs.children s.fs (fsPath n.path))).map (·.1)).filter (listable n.path),
+                      (baseName ∘ joinName n.path) x = x := by
+                    intro x hx
+                    have hl := (List.mem_filter.mp hx).2
+                    have hns : NoSep x := by
+                      unfold listable at hl
+                      simp only [Bool.and_eq_true, Bool.not_eq_true', decide_eq_false_iff_not, not_or] at hl
+                      refine ⟨hl.1.2.2.1, ?_, hl.1.1, hl.1.2.1⟩
+                      intro h47; exact hl.1.2.2.2.1 (by simpa using h47)
+                    exact baseName_joinName n.path x hns
+                  rw [List.map_congr_left hid]
+                  simp [listing]
+                generalize hL : (if _ < dirListHeader + dirListTrailer then minReaddirplusReply else _) = limit at hfill
+                have hlim0 : dirListHeader + dirListTrailer ≤ limit := by
+                  rw [← hL]; split
+                  · decide
+                  · omega
+                generalize hN : (refreshEach s1 c.now nodes0).2 = nodes at hfill hnodes hnames
+                by_cases hc : ck ≤ nodes.length
+                · have hps := pagePlus_spec limit ck s3 nodes hc hlim0
+                  rw [hfill] at hps
+                  obtain ⟨k, hk1, hstrip, _, _, hall, _⟩ := hps
+                  have hsub : ∀ nd ∈ (nodes.drop ck).take k, nd.attrs.fileId = fnv64 nd.path ∧ ∃ x, listable n.path x = true ∧ nd.path = joinName n.path x :=
+                    fun nd hnd => hnodes nd (List.mem_of_mem_drop (List.mem_of_mem_take hnd))
+                  have hform : ents'.map stripPlus = expectedEnts n.path ck (((listing s.fs n.path).drop ck).take k) := by
+                    rw [hstrip, numbered_eq_expected n.path ck _ hsub, List.map_take, List.map_drop, hnames]
+                  refine ⟨k, by rw [← hents]; exact hform, ?_⟩
+                  intro heof
+                  have hlimF : lim = false := by cases lim <;> simp_all
+                  have hk2 := hall hlimF
+                  rw [← hents, hform, hk2]
+                  have : ((listing s.fs n.path).drop ck).length = (nodes.drop ck).length := by
+                    rw [← hnames]; simp
+                  rw [← this, List.take_length]
+                · have hlen : (listing s.fs n.path).length = nodes.length := by rw [← hnames]; simp
+                  have hnil : (listing s.fs n.path).drop ck = [] := List.drop_eq_nil_of_le (by omega)
+                  have hdrop : nodes.drop (ck - 0) = [] := List.drop_eq_nil_of_le (by omega)
+                  -- past the end: the loop skips everything
+                  have hpast : (fillDirPlus limit ck s3 0 dirListHeader 0 nodes).2 = .done [] false := by
+                    rw [fillDirPlus_skip_to limit ck s3 0 dirListHeader 0 nodes (by omega), hdrop]
+                    rfl
+                  rw [hfill] at hpast
+                  simp only [Fill.done.injEq] at hpast
+                  refine ⟨0, ?_, ?_⟩
+                  · rw [← hents, hpast.1]; simp [expectedEnts]
+                  · intro _
+                    rw [← hents, hpast.1, hnil]; simp [expectedEnts]
+
 /-! ### frame: READDIR leaves the backend, the handle table and the stored nodes alone -/
 
 /-- the parts of the state a handle resolves through -/
